@@ -73,17 +73,17 @@ func Catalogue(tier string) []core.System {
 		// prefixes added and removed while the daemon runs
 		&SSystem{name: "pfx-3", MinS: 3, MaxS: 3, Life: 600, CfgP: []int{1}, PIdx: []int{2, 3}, Ops: []string{"start", "addp", "rmp", "imm", "adv"}, Advs: []int{1}, MaxStarts: 1},
 		// configuration variants: flags, MTU, router lifetime 0 (`not a default router`), DNS options, default intervals
-		&SSystem{name: "cfg-managed", Managed: true, Other: true, MTU: 1492, Life: 9000, CfgP: []int{1, 2}, DNS: 2, Dom: 2, Ops: []string{"start", "rs", "imm", "stop"}, MaxStarts: 1},
-		&SSystem{name: "cfg-nodefault", Life: 0, MTU: 0, CfgP: []int{}, DNS: 1, Dom: 1, Ops: []string{"start", "rs", "imm", "stop"}, MaxStarts: 1},
-		&SSystem{name: "cfg-defaults", Other: true, Life: 65535, MTU: 9000, CfgP: []int{4}, Ops: []string{"start", "rs", "adv"}, Advs: []int{200, 400}, MaxStarts: 1},
+		&SSystem{name: "cfg-managed", Hop: true, Managed: true, Other: true, MTU: 1492, Life: 9000, CfgP: []int{1, 2}, DNS: 2, Dom: 2, Ops: []string{"start", "rs", "imm", "stop"}, MaxStarts: 1},
+		&SSystem{name: "cfg-nodefault", Hop: true, Life: 0, MTU: 0, CfgP: []int{}, DNS: 1, Dom: 1, Ops: []string{"start", "rs", "imm", "stop"}, MaxStarts: 1},
+		&SSystem{name: "cfg-defaults", Hop: true, Other: true, Life: 65535, MTU: 9000, CfgP: []int{4}, Ops: []string{"start", "rs", "imm", "stop"}, MaxStarts: 1},
 		// the real Start / receiveLoop / Stop in real time, real Router Solicitations from the link
-		&SSystem{name: "wire-real", Kind: "wire", Life: 1800, MTU: 1500, CfgP: []int{1}, DNS: 1, Ops: []string{"start", "rs", "imm", "stop"}, MaxStarts: 2},
+		&SSystem{name: "wire-real", Kind: "wire", Hop: true, ImmEarly: true, Life: 1800, MTU: 1500, CfgP: []int{1}, DNS: 1, Ops: []string{"start", "rs", "imm", "stop"}, MaxStarts: 2},
 	}
 	if tier == "thorough" {
 		l = append(l,
 			&SSystem{name: "life-3", MinS: 3, MaxS: 3, Life: 1800, CfgP: []int{1}, Ops: []string{"start", "stop", "rs", "imm", "adv"}, Advs: []int{1, 2}, MaxStarts: 3},
 			&SSystem{name: "pfx-2", MinS: 2, MaxS: 2, Life: 600, CfgP: []int{1, 2}, PIdx: []int{3}, Ops: []string{"start", "stop", "addp", "rmp", "imm", "adv"}, Advs: []int{1}, MaxStarts: 2},
-			&SSystem{name: "cfg-other", Other: true, Life: 1, MTU: 1280, CfgP: []int{1, 2, 3}, DNS: 3, Dom: 3, Ops: []string{"start", "rs", "imm", "stop"}, MaxStarts: 1},
+			&SSystem{name: "cfg-other", Hop: true, Other: true, Life: 1, MTU: 1280, CfgP: []int{1, 2, 3}, DNS: 3, Dom: 3, Ops: []string{"start", "rs", "imm", "stop"}, MaxStarts: 1},
 		)
 	}
 	return l
@@ -96,6 +96,8 @@ func ChainCatalogue() []core.System {
 			Ops: []string{"start", "stop", "rs", "imm", "addp", "rmp", "adv"}, Advs: []int{1, 2, 7, 11}, MaxStarts: 4},
 		&SSystem{name: "rnd-b", MinS: 3, MaxS: 4, Managed: true, Life: 300, CfgP: []int{1, 2}, PIdx: []int{3},
 			Ops: []string{"start", "rs", "imm", "addp", "rmp", "adv"}, Advs: []int{1, 3, 9}, MaxStarts: 1},
+		// the default intervals (`Default intervals per RFC 4861`: 200 s .. 600 s)
+		&SSystem{name: "rnd-default", Life: 1800, CfgP: []int{1}, Ops: []string{"start", "stop", "rs", "adv"}, Advs: []int{100, 250, 700}, MaxStarts: 3},
 	}
 }
 
@@ -133,10 +135,10 @@ func TestExplore(t *testing.T) {
 	}
 	tier := core.Tier()
 	seed := core.Seed()
-	maxNodes := 4000
+	maxNodes := 600
 	nchains, chainLen := 6, 80
 	if tier == "thorough" {
-		maxNodes = 30000
+		maxNodes = 3000
 		nchains, chainLen = 30, 200
 	}
 	bundle := &core.Bundle{}
